@@ -191,3 +191,93 @@ def describe(cs):
                      for c in cs.get_captions(lang)]
     s = repr(out)
     return s if len(s) < 3000 else s[:3000] + "..."
+
+
+# ------------------------------------------------------------------------------------------------ stream H
+def read_set(rng, name):
+    """sets aimed at the read-back domain: visible texts, one language for SRT, MicroDVD cues outside frame 0; a share of
+    them carries what the domain excludes (frame-0 cues, '|'-only texts, CR, several languages)"""
+    pool = ["hello", "x y", "a|b", "|", " ", "1", "25", "{1}{2}", "-->", "é", "中", "\n", "a\nb", "WEBVTT", "Scenarist_SCC V1.0",
+            "<sami", "&", "tt>", "</t"]
+    bad = rng.random() < 0.25
+    nlangs = 1 if (name == "SRT" and not bad) else rng.choice([1, 1, 2])
+    d = {}
+    t = rng.choice([40000, 80000, rng.randrange(40000, 10 ** 7)])
+    if bad and name == "MicroDVD" and rng.random() < 0.5:
+        t = 0
+    for li in range(nlangs):
+        caps = []
+        for _ in range(rng.randint(1, 4)):
+            dur = rng.choice([1, 1000, 30000, 40000, 10 ** 6, rng.randrange(1, 10 ** 7)])
+            nodes = []
+            for k in range(rng.randint(1, 3)):
+                if k:
+                    nodes.append(CaptionNode.create_break() if rng.random() < 0.7 else CaptionNode.create_style(True, {"italics": True}))
+                txt = "".join(rng.choice(pool) for _ in range(rng.randint(1, 3)))
+                if bad and rng.random() < 0.3:
+                    txt = rng.choice(["|", " | ", "a\rb", "\r", " "])
+                nodes.append(CaptionNode.create_text(txt))
+            caps.append(Caption(t, t + dur, nodes))
+            t = t + dur + rng.choice([0, 1000, rng.randrange(1, 10 ** 7)]) if rng.random() < 0.8 else t
+        d["l%d" % li] = CaptionList(caps)
+    return CaptionSet(d)
+
+
+def real_read(name, doc):
+    R = FMT[name][2]
+    r = impl.call(lambda: R().read(doc))
+    if not isinstance(r, Ok):
+        return r
+    cs = r.v
+    langs = cs.get_languages()
+    return Ok([(c.start, c.end) for c in cs.get_captions(langs[0])] if langs else [])
+
+
+def run_read(ctx, res, extra_cases):
+    """'that reader reads the document' on the read-back domain of C20_own_read_mdvd (and the SRT domain, executed)"""
+    dist = res["distribution"]
+    rng = ctx.rng
+    cases = [(n, cs) for n, cs in extra_cases if n in ("SRT", "MicroDVD")]
+    for i in range(ctx.n(300, 12000)):
+        name = ("MicroDVD", "SRT")[i % 2]
+        cases.append((name, read_set(rng, name)))
+    reqs, items = [], []
+    for name, cs in cases:
+        w, why = encode(cs, name)
+        if w is None:
+            bump(dist, "H_outside_model_domain_%s_%s" % (name, why))
+            continue
+        out = impl.call(lambda: FMT[name][1]().write(cs))
+        if not isinstance(out, Ok):
+            continue
+        reqs.append((2004, [FMT[name][0], w]))
+        items.append((name, cs, out.v))
+    for (name, cs, doc), r in zip(items, oracle_batch(reqs)):
+        res["evaluations"] += 1
+        if r == [-1]:
+            res["disagreements"].append({"input": describe(cs), "stream": "H", "what": "request 2004 rejected the encoding"})
+            continue
+        dom = r[0] == 1
+        expected = [(c[0], c[1]) for c in r[1]]
+        model = r_result(r[2], lambda l: [(c[0], c[1]) for c in l])
+        rd = real_read(name, doc)
+        if not dom:
+            bump(dist, "H_outside_read_back_domain_" + name)
+            if not (isinstance(rd, Ok) and rd.v == expected):
+                bump(dist, "H_outside_read_back_domain_and_not_read_back_" + name)
+            continue
+        bump(dist, "H_in_read_back_domain_" + name)
+        res["nontrivial"].add(("H", name, hash(doc)))
+        if not (isinstance(model, Ok) and model.v == expected):
+            if name == "MicroDVD":      # contradicts C20_own_read_mdvd
+                res["disagreements"].append({"input": describe(cs), "stream": "H", "fmt": name,
+                                             "what": "reader model does not return the expected captions inside the theorem's domain"})
+            else:
+                bump(dist, "H_srt_reader_model_differs_from_expected(info)")
+        if not (isinstance(rd, Ok) and rd.v == expected):
+            res["violations"].append({
+                "kind": "own-output-not-read-back:read-domain", "fmt": name, "shape": "read-domain",
+                "what": "%s: the reader does not return one caption per written cue with the written instants "
+                        "(expected %d captions, got %s)" % (name, len(expected), (len(rd.v) if isinstance(rd, Ok) else repr(rd))),
+                "input": describe(cs), "document": doc[:4000], "expected": [list(e) for e in expected],
+                "replay": "own-read", "stream": "H"})
